@@ -49,7 +49,7 @@ func (l *c09Log) run(id string, a []string) error {
 func H_C09_exec(v *V) {
 	// the fault class is chosen first; configuration bits that cannot matter
 	// for a class are fixed instead of multiplied
-	fault := v.Choice(10)
+	fault := v.Choice(11)
 	log := &c09Log{}
 	if fault == 0 {
 		log.fail = v.Choice(2) == 1
@@ -104,7 +104,7 @@ func H_C09_exec(v *V) {
 	// optional single fault at a symbolic position
 	F := v.String(v.Shape("lf"))
 	pos := 0
-	if fault == 1 || fault == 5 {
+	if fault == 1 || fault == 5 || fault == 10 {
 		pos = v.Choice(len(argv) + 1)
 	}
 	ins := func(toks ...string) {
@@ -152,6 +152,9 @@ func H_C09_exec(v *V) {
 	case 7: // unknown command
 		v.Assume(!refOptionSyntax(F) && F != "add" && F != "rm")
 		argv = []string{"-g", F}
+	case 10: // unknown short option (any character that is not a short name in scope)
+		v.Assume(refOneRune(F) && F != "-" && F != "=" && F != "g" && F != "y" && F != "n" && F != "z" && F != "r" && F != "h")
+		ins("-" + F)
 	case 8: // required subcommand missing; the only subcommand is hidden
 		ca.SubcommandsOptional = false
 		ca.Find("sub").Hidden = true
@@ -163,7 +166,7 @@ func H_C09_exec(v *V) {
 		argv = []string{"add", "-y", F}
 	}
 	// a token inserted after `-n`/`-r` would become that option's argument
-	if fault == 1 || fault == 5 {
+	if fault == 1 || fault == 5 || fault == 10 {
 		if pos > 0 && (argv[pos-1] == "-n" || argv[pos-1] == "-r") {
 			v.Assume(false)
 		}
